@@ -223,3 +223,41 @@ Definition rule_step (x : ctx) (c : cmd) (prior : option nvalue) (ins : list inp
   end.
 
 Definition executes (s : step) : bool := match s with STask DRun => true | _ => false end.
+
+(* ---- vocabulary of the theorem statements (specification side) ---- *)
+
+Definition ts_lt (a b : ts) : Prop := fst a < fst b \/ (fst a = fst b /\ snd a < snd b).
+
+Definition ts_le (a b : ts) : Prop := fst a < fst b \/ (fst a = fst b /\ snd a <= snd b).
+
+(* a value that makes provideValue set shouldSkip *)
+Definition is_bad (v : nvalue) : bool :=
+  match v with NMissingInput | NFailedCommand | NSkippedCommand => true | _ => false end.
+Definition is_missing_input (v : nvalue) : bool := match v with NMissingInput => true | _ => false end.
+(* an existing input / successful command whose attached info is the `missing' record *)
+Definition delivers_missing (v : nvalue) : bool :=
+  match v with NExistingInput _ | NSuccessfulCommand _ _ => is_missing (output_info v) | _ => false end.
+(* a value that takes part in newestModTime *)
+Definition stamped (v : nvalue) : bool := negb (is_bad v) && negb (delivers_missing v).
+
+Definition shortcut (x : ctx) (c : cmd) (prior : option nvalue) (ins : list input) (outs : list fileinfo) : bool :=
+  negb (c_has_deps c) && forallb (fun v => negb (delivers_missing v)) (requested ins) &&
+  hash_allows_update c prior && can_update_with_result (x_strict x) (newest_mod_time ins) outs.
+
+Definition fi_at (ino sec nsec : N) : fileinfo := mkFI 1 ino 33188 1 sec nsec zeros32.
+
+(* the comparison the code makes: non-strict: output STRICTLY older than the newest input; strict: older or equal *)
+Definition stale_against (strict : bool) (o : fileinfo) (newest : ts) : Prop :=
+  if strict then ts_le (mod_time o) newest else ts_lt (mod_time o) newest.
+
+Definition remap_order_only (g : nvalue -> nvalue) (i : input) : input :=
+  if is_order_only (fst i) then (fst i, g (snd i)) else i.
+
+Definition reclass (r : iclass -> iclass) (i : input) : input := (r (fst i), snd i).
+
+Definition swap_explicit_implicit (k : iclass) : iclass :=
+  match k with CExplicit => CImplicit | CImplicit => CExplicit | COrderOnly => COrderOnly end.
+
+(* every output strictly newer than every delivered input (a logical clock) *)
+Definition all_newer (ins : list input) (outs : list fileinfo) : Prop :=
+  forall o v, In o outs -> In v (requested ins) -> stamped v = true -> ts_lt (mod_time (output_info v)) (mod_time o).
